@@ -64,8 +64,10 @@ def main(argv):
                 b.update(fut.result())
         # third opinion: this process, through the fork pool, other order
         mach = driver.machine(prop)
-        if hasattr(mach, "prepare"):
-            mach.prepare()
+        common.PRELOAD[:] = (
+            [(driver.MACHINES[prop], "prepare")] if hasattr(mach, "prepare") else []
+        )
+        common.start_zygotes()
         results, errors, _ = common.run_pool(
             driver._worker((prop, seed, 0)), reversed(indices)
         )
